@@ -52,6 +52,13 @@ impl RuntimeState {
             .map(|interval| now + interval);
     }
 
+    /// Return one unit of send quota, but never more than the broker's window leaves free while
+    /// `unresolved` publishes (replayed ones included) are still in flight.
+    pub(super) fn release_send_quota(&mut self, unresolved: usize) {
+        let free = self.max_send_quota.saturating_sub(unresolved as u16);
+        self.send_quota = self.send_quota.saturating_add(1).min(free);
+    }
+
     pub(super) fn require_packet_size<E>(&self, len: usize) -> Result<(), Error<E>> {
         if self
             .maximum_packet_size
